@@ -1,0 +1,38 @@
+//go:build verif
+// +build verif
+
+package flate
+
+// verifReaderTrace, when set, receives one event per critical section of the
+// inflater's input handling (verif builds only; see /verif/spec/ReaderMechTrace.tla).
+var verifReaderTrace func(ev string, a, b, c, d int)
+
+// VerifSetReaderTrace installs (or, with nil, removes) the receiver of the
+// Reader's mechanism events (verif builds only). Not safe for concurrent use.
+func VerifSetReaderTrace(f func(ev string, a, b, c, d int)) { verifReaderTrace = f }
+
+func vrtrace(ev string, a, b, c, d int) {
+	if verifReaderTrace != nil {
+		verifReaderTrace(ev, a, b, c, d)
+	}
+}
+
+func vrbool(b bool) int {
+	if b {
+		return 1
+	}
+	return 0
+}
+
+// vrstop classifies why a decoding step stopped.
+func vrstop(err error) int {
+	switch {
+	case err == nil:
+		return 0
+	case err == errEndInput:
+		return 1
+	case err == errOutputOverflow:
+		return 2
+	}
+	return 3
+}
